@@ -147,7 +147,7 @@ def run(ctx):
         "array": ["minItems: 1", "maxItems: 5", "nullable: false", "nullable: true", "const: false", "optional: true", "optional: false", 'type: "array"', "min: 1"],
         "object": ["additionalProperties: true", "nullable: false", "nullable: true", "const: false", "optional: false", 'type: "object"', 'additionalProperties: "string"'],
     }
-    nsets = 1200 if quick else 12000
+    nsets = 3000 if quick else 12000
     perm_items, groups = [], []
     for _ in range(nsets):
         kind = rng.choice(list(pool))
